@@ -144,7 +144,7 @@ func (core *JApiCore) compileUserTypeWithAllDependencies(name string) error {
 			}
 
 			if err := core.checkUserTypeDuringBuild(n, ut); err != nil {
-				return jschemaToJAPIError(err, dd.GetValue(n))
+				return jschemaToJAPIError(err, core.directiveBlamedBy(err, n))
 			}
 		}
 
@@ -156,7 +156,7 @@ func (core *JApiCore) compileUserTypeWithAllDependencies(name string) error {
 	// Check user type is correct.
 	// We should do it here 'cause it will simplify further processing.
 	if err := currUT.Check(); err != nil {
-		return jschemaToJAPIError(err, dd.GetValue(name))
+		return jschemaToJAPIError(err, core.directiveBlamedBy(err, name))
 	}
 
 	core.userTypes.Set(name, currUT)
